@@ -21,6 +21,7 @@ import EdzedProofs.CronTie
 import EdzedModel.Gen.TranslatedCronCfg
 import EdzedProofs.CronCfgTie
 import EdzedProofs.IntervalTie
+import EdzedProofs.WeekdayBridge
 import EdzedProofs.CronTiming
 import EdzedProofs.CronTimingDemo
 
@@ -922,6 +923,74 @@ theorem translated_croncfg_weekday_rules (P : CfgPrims TA DA SA TI DI SI TL DL S
     (match parse3 P none none (.seq [1, 8]) with | .error .valueError => True | _ => False) := by
   refine ⟨?_, by rfl, by simp [parse3, wdSeq, pure, Except.pure]⟩
   rw [translated_croncfg_parse3_is_model]; rfl
+
+/-- BRIDGE C07 ↔ C13 (weekday sequences): what the translated `_parse3` stores for a sequence of weekday numbers is,
+    number by number, the list that C13's model of `TimeDate.parse` answers (`Interval.parseWeekdays`), and the two
+    refuse the same sequences – for every sequence of integers. Before this theorem the two normal forms
+    (`Cron.normWeekdays`, a canonical `Int` set; `Interval.weekdaysOfInts`, a filter of 1..7) met in the
+    correspondence only (driver op `interval td`). -/
+theorem translated_croncfg_weekdays_are_c13_weekdays (P : CfgPrims TA DA SA TI DI SI TL DL SL ε) (xs : List Int) :
+    (match parse3 P none none (.seq xs) with
+     | .ok (_, _, some s) => Interval.parseWeekdays (.ints xs) = .ok (s.map Int.toNat)
+     | .ok (_, _, none) => False
+     | .error .valueError => Interval.parseWeekdays (.ints xs) = .err .value
+     | .error _ => False) := by
+  rw [(translated_croncfg_weekday_rules P xs).1]
+  cases h : normWeekdays xs with
+  | some s => exact WeekdayBridge.normWeekdays_some h
+  | none => exact WeekdayBridge.normWeekdays_none h
+
+/-- BRIDGE C07 ↔ C13 (weekday strings): with `int(c)` = the digit's value for an ASCII digit and a failure for every
+    other ASCII character (what CPython does; stated as the hypothesis on the primitive), the translated `_parse3`
+    and C13's `parseWeekdays` agree on every ASCII weekday string: same refusals, same weekdays. -/
+theorem translated_croncfg_weekday_strings_are_c13_weekdays (P : CfgPrims TA DA SA TI DI SI TL DL SL ε)
+    (e0 : ε) (hint : ∀ c, P.intOfChar c = if Interval.isDigit c then .ok (Int.ofNat (Interval.dval c)) else .error e0)
+    (s : List Char) (ha : Interval.asciiOk s = true) :
+    (match parse3 P none none (.str s) with
+     | .ok (_, _, some w) => Interval.parseWeekdays (.str s) = .ok (w.map Int.toNat)
+     | .ok (_, _, none) => False
+     | .error _ => Interval.parseWeekdays (.str s) = .err .value) := by
+  rw [translated_croncfg_parse3_is_model]
+  simp only [optParse]
+  rw [translated_croncfg_weekday_string]
+  have hf : (s.filter fun c => c != ' ' && c != '\t') = s.filter fun c => !(c == ' ' || c == '\t') := by
+    apply List.filter_congr
+    intro c _
+    by_cases h1 : c = ' ' <;> by_cases h2 : c = '\t' <;> simp [h1, h2, bne]
+  rw [hf]
+  generalize hcs : (s.filter fun c => !(c == ' ' || c == '\t')) = cs
+  have hpw : Interval.parseWeekdays (.str s) =
+      if cs.all Interval.isDigit then Interval.weekdaysOfInts (cs.map fun c => Int.ofNat (Interval.dval c))
+      else .err .value := by
+    simp only [Interval.parseWeekdays, ha, Bool.not_true, Bool.false_eq_true, ↓reduceIte, hcs]
+  -- the character-by-character conversion: all digits -> their values, otherwise the first failure
+  have hmap : ∀ l : List Char,
+      (l.mapM fun c => liftP (P.intOfChar c)) =
+        if l.all Interval.isDigit then .ok (l.map fun c => Int.ofNat (Interval.dval c))
+        else .error (.fromParser e0) := by
+    intro l
+    induction l with
+    | nil => rfl
+    | cons c r ih =>
+      rw [List.mapM_cons, ih, hint]
+      by_cases hc : Interval.isDigit c = true
+      · by_cases hr : r.all Interval.isDigit = true
+        · simp [hc, hr, liftP, bind, Except.bind, pure, Except.pure]
+        · simp [hc, hr, liftP, bind, Except.bind]
+      · simp [hc, liftP, bind, Except.bind]
+  rw [hmap cs, hpw]
+  by_cases hd : cs.all Interval.isDigit = true
+  · simp only [hd, ↓reduceIte]
+    have hb := WeekdayBridge.normWeekdays_is_weekdaysOfInts (cs.map fun c => Int.ofNat (Interval.dval c))
+    cases hn : normWeekdays (cs.map fun c => Int.ofNat (Interval.dval c)) with
+    | some w => rw [hn] at hb; simp only []; exact hb.symm
+    | none => rw [hn] at hb; simp only []; exact hb.symm
+  · simp only [hd, Bool.false_eq_true, ↓reduceIte]
+
+/-- non-vacuity: a concrete sequence and a concrete string on both sides of the bridge -/
+example : normWeekdays [0, 7, 3, 7] = some [3, 7] ∧ Interval.parseWeekdays (.ints [0, 7, 3, 7]) = .ok [3, 7] ∧
+    Interval.parseWeekdays (.str "7 30".toList) = .ok [3, 7] ∧ normWeekdays [1, 8] = none ∧
+    Interval.parseWeekdays (.ints [1, 8]) = .err .value := by decide
 
 /-- `_export3`, `parse`, `get_state` -/
 theorem translated_croncfg_export_is_model (P : CfgPrims TA DA SA TI DI SI TL DL SL ε)
